@@ -10,6 +10,9 @@ R10.4  td['environment'] values reach the `export K=V` lines only through a
        quoting function
 R10.5  per-rank dicts the executor adds to td['pre_exec'] / td['post_exec']
        are keyed the way _get_prep_exec looks entries up
+R10.6  every command of the described pre/post lists stands alone in front of
+       its `|| rp_error <section>` (command slot of a guard line = one element
+       of the list; never the list, never elements joined other than by `&&`)
 (R10.3 also: the named environment is sourced before the environment exports)
 """
 
@@ -1886,6 +1889,801 @@ def r10_5(prog, rep, rid='R10.5'):
 
 
 # ------------------------------------------------------------------------------
+# R10.6  every described pre/post command is guarded by itself
+#
+# `a; b || rp_error sig` guards only `b`.  What decides the property is how
+# many commands of the described list stand in front of one `|| rp_error` of
+# the generated text:  the value in the command slot of a guard line must be
+# ONE element of the command list (the variable of an iteration over it, an
+# indexed element), never the list as a whole and never several elements fused
+# into one string by join / + / % / accumulation - unless they are fused by
+# `&&`, which hands every failure on to the guard.
+#
+# Multiplicity tags of a value (class Mult):
+#   KEY     the name of the section ('pre_exec', ..: the `sig` argument)
+#   COLL    a collection of commands: td[sig], ru.as_list(..), the value of a
+#           per-rank dict (one command or a list of them)
+#   ELEM    one element of a collection: one command, or at the top level one
+#           entry (a command or a per-rank dict)
+#   ('fused', sep)  several commands in one string, separated by `sep`
+#                   (None: a list rendered by str())
+#   ('view', k)     .items() / .values() of a per-rank dict
+#   UNK     derived from the commands in a way the evaluator does not know
+#
+PREP_KEYS = ('pre_exec', 'post_exec', 'pre_launch', 'post_launch')
+PREP_ROOTS = ('_get_prep_exec', '_get_prep_launch')
+GUARD_RE = re.compile(r'\|\|\s*rp_error\b')
+KEY, COLL, ELEM, UNK = 'key', 'coll', 'elem', 'unknown'
+M_STR = STR_METHODS | STR_PASS | {'format', 'center', 'zfill', 'capitalize',
+                                  'swapcase', 'casefold', 'removeprefix',
+                                  'removesuffix'}
+M_NONE = NUM_FUNCS | {'range', 'print', 'hasattr', 'min', 'max', 'sum',
+                      'ord', 'abs'}
+M_KEEP = KEEP_FUNCS | {'frozenset', 'map'}
+
+
+def derived(t):
+    """tags which say: this value carries described commands"""
+    return {x for x in t if x != KEY}
+
+
+def is_fused(x):
+    return isinstance(x, tuple) and x[0] == 'fused'
+
+
+def flatten_add(e):
+    if isinstance(e, ast.BinOp) and isinstance(e.op, ast.Add):
+        return flatten_add(e.left) + flatten_add(e.right)
+    return [e]
+
+
+class Mult:
+
+    def __init__(self, prog, f, env=None, depth=0, memo=None):
+        self.prog, self.f, self.depth = prog, f, depth
+        self.env = env or {}
+        self.memo = memo if memo is not None else {}
+        self.params = set(f.params)
+        self.defs = {}
+        self.encl = {}
+        self._scan(f.node, ())
+
+    # -- definitions of the local names, with the loops around them
+    def _add(self, name, kind, value, node, pos=None):
+        self.defs.setdefault(name, []).append((kind, value, node, pos))
+
+    def _target(self, t, kind, value, node):
+        if isinstance(t, ast.Name):
+            self._add(t.id, kind, value, node)
+        elif isinstance(t, (ast.Tuple, ast.List)):
+            if kind == 'assign' and isinstance(value, (ast.Tuple, ast.List)) \
+                    and len(value.elts) == len(t.elts):
+                for a, b in zip(t.elts, value.elts):
+                    self._target(a, 'assign', b, node)
+                return
+            for i, x in enumerate(t.elts):
+                for nm in stores_in_target(x):
+                    self._add(nm, 'iter' if kind == 'iter' else 'unpack',
+                              value, node, (i, len(t.elts)))
+        elif isinstance(t, ast.Starred):
+            self._target(t.value, 'unpack', value, node)
+
+    def _scan(self, node, loops):
+        for n in ast.iter_child_nodes(node):
+            if isinstance(n, (ast.FunctionDef, ast.AsyncFunctionDef,
+                              ast.Lambda, ast.ClassDef)):
+                continue
+            self.encl[id(n)] = loops
+            if isinstance(n, ast.Assign):
+                for t in n.targets:
+                    self._target(t, 'assign', n.value, n)
+            elif isinstance(n, ast.AnnAssign) and n.value is not None:
+                self._target(n.target, 'assign', n.value, n)
+            elif isinstance(n, ast.NamedExpr):
+                self._target(n.target, 'assign', n.value, n)
+            elif isinstance(n, ast.AugAssign) and isinstance(n.target,
+                                                             ast.Name):
+                self._add(n.target.id, 'aug' if isinstance(n.op, ast.Add)
+                          else 'unpack', n.value, n)
+            elif isinstance(n, (ast.For, ast.AsyncFor, ast.comprehension)):
+                self._target(n.target, 'iter', n.iter, n)
+            elif isinstance(n, ast.Call) and isinstance(n.func, ast.Attribute) \
+                    and isinstance(n.func.value, ast.Name) and n.args and \
+                    n.func.attr in ('append', 'extend', 'insert', 'add',
+                                    'appendleft'):
+                self._add(n.func.value.id, 'extend' if n.func.attr == 'extend'
+                          else 'append', n.args[-1], n)
+            inner = loops + (n,) if isinstance(n, (ast.For, ast.AsyncFor,
+                                                   ast.While)) else loops
+            self._scan(n, inner)
+
+    # -- tag algebra
+    @staticmethod
+    def select(t):
+        """an index / key selects out of t"""
+        out = set()
+        for x in t:
+            if x == COLL:
+                out.add(ELEM)
+            elif x == ELEM:
+                out.add(COLL)
+            elif is_fused(x):
+                out.add(x)
+            elif x != KEY:
+                out.add(UNK)
+        return out
+
+    @staticmethod
+    def collect(t):
+        """a list is made of values t"""
+        out = set()
+        for x in t:
+            if x in (ELEM, COLL):
+                out.add(COLL)
+            elif is_fused(x):
+                out.add(x)
+            elif x != KEY:
+                out.add(UNK)
+        return out
+
+    @staticmethod
+    def elem(t, pos=None):
+        """iteration over t binds (position pos of) the target"""
+        out = set()
+        for x in t:
+            if x == COLL:
+                out.add(ELEM)
+            elif is_fused(x):
+                out.add(x)
+            elif isinstance(x, tuple) and x[0] == 'view':
+                if x[1] == 'values':
+                    out.add(COLL)
+                elif x[1] == 'items' and pos is not None and pos[1] == 2:
+                    if pos[0] == 1:
+                        out.add(COLL)
+                else:
+                    out.add(UNK)
+            elif x != KEY:
+                out.add(UNK)
+        return out
+
+    def fuse(self, parts, seen, listcat=False):
+        """parts: ('t', text) | ('v', expr) in text order: one string made
+        of them"""
+        out = set()
+        carriers = []           # (index, tags)
+        for i, p in enumerate(parts):
+            if p[0] != 'v':
+                continue
+            t = derived(self.ev(p[1], seen))
+            if t:
+                carriers.append((i, t))
+        if not carriers:
+            return out
+        allt = set()
+        for _, t in carriers:
+            allt |= t
+        if listcat and allt == {COLL}:
+            return {COLL}                       # list + list
+        for x in allt:
+            if is_fused(x):
+                out.add(x)
+            elif x == COLL:
+                out.add(('fused', None))
+            elif x != ELEM:
+                out.add(UNK)
+        ne = [i for i, t in carriers if ELEM in t]
+        if len(ne) == 1 and not out:
+            out.add(ELEM)
+        elif len(ne) == 1:
+            pass                                # (already fused / unknown)
+        elif len(ne) > 1:
+            for a, b in zip(ne, ne[1:]):
+                sep = ''.join(p[1] if p[0] == 't' else '\0'
+                              for p in parts[a + 1:b])
+                out.add(('fused', sep) if '\0' not in sep else UNK)
+        return out
+
+    def const_text(self, e):
+        if isinstance(e, ast.Constant) and isinstance(e.value, str):
+            return e.value
+        if isinstance(e, ast.Name):
+            ds = self.defs.get(e.id, [])
+            if len(ds) == 1 and ds[0][0] == 'assign' and \
+                    e.id not in self.params:
+                return self.const_text(ds[0][1])
+        if isinstance(e, (ast.Name, ast.Attribute)):
+            v = self.prog.fold(self.f.module, e, self.f.cls)
+            return v if isinstance(v, str) else None
+        if isinstance(e, ast.BinOp) and isinstance(e.op, ast.Add):
+            a, b = self.const_text(e.left), self.const_text(e.right)
+            return a + b if a is not None and b is not None else None
+        return None
+
+    def accumulates(self, name, node):
+        """the `name += ..` at node adds to what earlier iterations of a loop
+        around it have put there"""
+        for lp in self.encl.get(id(node), ()):
+            reset = False
+            for kind, v, n, pos in self.defs.get(name, []):
+                if kind == 'assign' and any(x is n for x in walk(lp)):
+                    reset = True
+            if not reset:
+                return True
+        return False
+
+    # -- names
+    def name(self, nm, seen):
+        if nm in seen:
+            return set()
+        out = set()
+        if nm in self.params:
+            out |= set(self.env.get(nm, ()))
+        ds = self.defs.get(nm, [])
+        s2 = seen | {nm}
+        carrying = 0
+        augs = []
+        for kind, v, node, pos in ds:
+            if kind == 'assign':
+                t = self.ev(v, s2)
+                carrying += bool(derived(t))
+                out |= t
+            elif kind == 'iter':
+                out |= self.elem(self.ev(v, s2), pos)
+            elif kind == 'unpack':
+                if derived(self.ev(v, s2)):
+                    out.add(UNK)
+            elif kind == 'append':
+                out |= self.collect(self.ev(v, s2))
+            elif kind == 'extend':
+                t = self.ev(v, s2)
+                out |= {COLL if x == COLL else x if is_fused(x) else UNK
+                        for x in derived(t)}
+            elif kind == 'aug':
+                t = self.ev(v, s2)
+                if derived(t):
+                    carrying += 1
+                    augs.append((v, node, t))
+        for v, node, t in augs:
+            if t == {COLL}:
+                out.add(COLL)                   # list += list
+            elif carrying > 1 or self.accumulates(nm, node):
+                texts = [self.const_text(x) for x in flatten_add(v)]
+                sep = ''.join(x for x in texts if x)
+                out |= {x for x in t if is_fused(x) or x == UNK}
+                out.add(('fused', sep))
+            else:
+                out |= t
+        return out
+
+    # -- expressions
+    def is_key(self, e, seen):
+        if isinstance(e, ast.Constant):
+            return e.value in PREP_KEYS
+        if isinstance(e, ast.IfExp):
+            return self.is_key(e.body, seen) and self.is_key(e.orelse, seen)
+        return self.ev(e, seen) == {KEY}
+
+    def ev(self, e, seen=frozenset()):
+        if e is None or isinstance(e, ast.Constant):
+            return set()
+        if isinstance(e, ast.Name):
+            return self.name(e.id, seen)
+        if isinstance(e, ast.Subscript):
+            b = derived(self.ev(e.value, seen))
+            if isinstance(e.slice, ast.Slice):
+                return b
+            if not b and self.is_key(e.slice, seen):
+                return {COLL}                   # td[sig]
+            return self.select(b)
+        if isinstance(e, ast.Attribute):
+            return {UNK} if derived(self.ev(e.value, seen)) else set()
+        if isinstance(e, ast.Call):
+            return self.call(e, seen)
+        if isinstance(e, ast.BinOp) and isinstance(e.op, ast.Add):
+            return self.fuse([('t', x.value) if isinstance(x, ast.Constant)
+                              and isinstance(x.value, str) else ('v', x)
+                              for x in flatten_add(e)], seen, listcat=True)
+        if isinstance(e, ast.BinOp) and isinstance(e.op, ast.Mod):
+            args = e.right.elts if isinstance(e.right, ast.Tuple) \
+                else [e.right]
+            raw = self.const_text(e.left)
+            convs = list(FMT_RE.finditer(raw.replace('%%', '\0\0'))) \
+                if raw is not None else []
+            if raw is None or len(convs) != len(args):
+                # unknown format text: unknown separators
+                parts = []
+                for a in args:
+                    parts += [('v', a), ('v', e.left)]
+                return self.fuse(parts[:-1], seen)
+            parts, pos = [], 0
+            for m, a in zip(convs, args):
+                parts += [('t', raw[pos:m.start()]), ('v', a)]
+                pos = m.end()
+            return self.fuse(parts + [('t', raw[pos:])], seen)
+        if isinstance(e, ast.BinOp):
+            t = derived(self.ev(e.left, seen) | self.ev(e.right, seen))
+            return {UNK} if t else set()
+        if isinstance(e, ast.JoinedStr):
+            parts = [('t', str(v.value)) if isinstance(v, ast.Constant)
+                     else ('v', v.value) for v in e.values]
+            return self.fuse(parts, seen)
+        if isinstance(e, ast.IfExp):
+            return self.ev(e.body, seen) | self.ev(e.orelse, seen)
+        if isinstance(e, ast.BoolOp):
+            out = set()
+            for v in e.values:
+                out |= self.ev(v, seen)
+            return out
+        if isinstance(e, (ast.Compare, ast.Lambda)):
+            return set()
+        if isinstance(e, ast.UnaryOp):
+            return set() if isinstance(e.op, ast.Not) else \
+                self.ev(e.operand, seen)
+        if isinstance(e, ast.NamedExpr):
+            return self.ev(e.value, seen)
+        if isinstance(e, (ast.ListComp, ast.SetComp, ast.GeneratorExp)):
+            return self.collect(self.ev(e.elt, seen))
+        if isinstance(e, (ast.List, ast.Tuple, ast.Set)):
+            out = set()
+            for x in e.elts:
+                out |= self.collect(self.ev(x, seen))
+            return out
+        if isinstance(e, ast.Starred):
+            return self.ev(e.value, seen)
+        if isinstance(e, (ast.Dict, ast.DictComp)):
+            vals = e.values if isinstance(e, ast.Dict) else [e.value]
+            t = set()
+            for v in vals:
+                t |= derived(self.ev(v, seen))
+            if not t:
+                return set()
+            out = {x for x in t if is_fused(x)}
+            if t - {ELEM, COLL} - out:
+                out.add(UNK)
+            return out or {ELEM}                # shaped like a per-rank entry
+        t = set()
+        for c in ast.iter_child_nodes(e):
+            if isinstance(c, ast.expr):
+                t |= derived(self.ev(c, seen))
+        return {UNK} if t else set()
+
+    def call(self, c, seen):
+        name = dotted(c.func)
+        fn = c.func
+        argt = set()
+        for a in c.args:
+            argt |= self.ev(a, seen)
+        for k in c.keywords:
+            argt |= self.ev(k.value, seen)
+        if name in M_NONE:
+            return set()
+        if isinstance(fn, ast.Attribute) and fn.attr == 'join' and \
+                len(c.args) == 1:
+            sep = self.const_text(fn.value)
+            a = c.args[0]
+            if isinstance(a, (ast.List, ast.Tuple)) and not any(
+                    isinstance(x, ast.Starred) for x in a.elts):
+                parts = []
+                for x in a.elts:
+                    parts += [('v', x), ('t', sep) if sep is not None
+                              else ('v', fn.value)]
+                return self.fuse(parts[:-1], seen)
+            out = set()
+            for x in derived(self.ev(a, seen)):
+                if x == COLL:
+                    out.add(('fused', sep) if sep is not None else UNK)
+                elif is_fused(x):
+                    out.add(x)
+                else:
+                    out.add(UNK)
+            return out
+        callee = self.prog.resolve_call(self.f, c)
+        if callee is not None and callee.cls is not None and \
+                callee.name != '__init__':
+            return self.returns(callee, c, seen)
+        if isinstance(fn, ast.Attribute):
+            recv = self.ev(fn.value, seen)
+            attr = fn.attr
+            if not derived(recv):
+                if attr in ('get', 'pop') and c.args and \
+                        self.is_key(c.args[0], seen):
+                    out = {COLL}                # td.get(sig)
+                    for a in c.args[1:]:
+                        out |= self.ev(a, seen)
+                    return out
+                if attr == 'format':
+                    parts = []
+                    for a in list(c.args) + [k.value for k in c.keywords]:
+                        parts += [('v', a), ('v', fn.value)]
+                    return self.fuse(parts[:-1], seen)
+                if name in M_KEEP:
+                    return self.collect(argt)
+                return self.passed(argt)
+            recv = derived(recv)
+            if attr in ('get', 'pop', 'setdefault'):
+                out = self.select(recv)
+                for a in c.args[1:]:
+                    out |= self.ev(a, seen)
+                return out
+            if attr in ('items', 'values'):
+                return {('view', attr) if x == ELEM else x if is_fused(x)
+                        else UNK for x in recv}
+            if attr == 'keys':
+                return set()
+            if attr == 'copy':
+                return recv
+            if attr in M_STR and not derived(argt):
+                return {x if x == ELEM or is_fused(x) else UNK for x in recv}
+            return {x if is_fused(x) else UNK for x in recv}
+        if name in ('str', 'repr', 'format', 'ascii'):
+            return {ELEM if x == ELEM else x if is_fused(x) else
+                    ('fused', None) if x == COLL else UNK
+                    for x in derived(argt)}
+        if name in M_KEEP:
+            return self.collect(argt)
+        return self.passed(argt)
+
+    @staticmethod
+    def passed(argt):
+        """result of a function the evaluator cannot see into: one command in,
+        one command out; anything else is unknown"""
+        t = derived(argt)
+        if not t or t == {ELEM}:
+            return t
+        return {x if is_fused(x) else UNK for x in t}
+
+    def param_env(self, callee, c, seen):
+        ps = list(callee.params)
+        if ps and ps[0] in ('self', 'cls') and not is_static(callee):
+            ps = ps[1:]
+        env = {}
+        for i, a in enumerate(c.args):
+            if isinstance(a, ast.Starred) or i >= len(ps):
+                continue
+            t = self.ev(a, seen)
+            if t:
+                env[ps[i]] = frozenset(t)
+        for k in c.keywords:
+            if k.arg in ps:
+                t = self.ev(k.value, seen)
+                if t:
+                    env[k.arg] = frozenset(t)
+        return env
+
+    def returns(self, callee, c, seen):
+        env = self.param_env(callee, c, seen)
+        if not env:
+            return set()
+        key = (callee.where, tuple(sorted(env.items())))
+        if key in self.memo:
+            return set(self.memo[key])
+        if self.depth > 4:
+            return {UNK}
+        self.memo[key] = frozenset()
+        sub = Mult(self.prog, callee, env, self.depth + 1, self.memo)
+        out = set()
+        for n in walk(callee.node):
+            if isinstance(n, ast.Return) and n.value is not None:
+                out |= sub.ev(n.value)
+        self.memo[key] = frozenset(out)
+        return out
+
+
+def format_pieces(node, M):
+    """pieces of `'..{}..'.format(a, k=b)` with a known format text, or None"""
+    if not (isinstance(node, ast.Call) and isinstance(node.func, ast.Attribute)
+            and node.func.attr == 'format'):
+        return None
+    text = M.const_text(node.func.value)
+    if text is None or any(isinstance(a, ast.Starred) for a in node.args) or \
+            any(k.arg is None for k in node.keywords):
+        return None
+    import string
+    out, auto = [], 0
+    try:
+        fields = list(string.Formatter().parse(text))
+    except ValueError:
+        return None
+    kw = {k.arg: k.value for k in node.keywords}
+    for lit, field, spec, conv in fields:
+        if lit:
+            out.append(('t', lit))
+        if field is None:
+            continue
+        if field == '':
+            field, auto = str(auto), auto + 1
+        if field.isdigit() and int(field) < len(node.args):
+            out.append(('v', node.args[int(field)]))
+        elif field in kw:
+            out.append(('v', kw[field]))
+        else:
+            return None
+    return out
+
+
+def item_pieces(it, f, M):
+    """('t', text) / ('v', expr) / ('c', call expr) pieces of one Item"""
+    if it.kind == 'const':
+        return [('t', it.text)]
+    if it.kind == 'call':
+        return [('c', it.node)]
+    if it.kind != 'fmt':
+        return format_pieces(it.node, M) or [('v', it.node)]
+    masked = it.text.replace('%%', '\0\0')
+    convs = list(FMT_RE.finditer(masked))
+    if len(convs) != len(it.vals):
+        raise AnalysisError('UNRECOGNISED-IDIOM %s: format `%s` and its %d '
+                            'values' % (f.where, it.text[:40], len(it.vals)))
+    out, pos = [], 0
+    for m, v in zip(convs, it.vals):
+        out += [('t', it.text[pos:m.start()].replace('%%', '%')), ('v', v)]
+        pos = m.end()
+    out.append(('t', it.text[pos:].replace('%%', '%')))
+    return [p for p in out if p[0] != 't' or p[1]]
+
+
+def ends_line(sq, f, M):
+    if not sq:
+        return True
+    x = sq[-1]
+    if isinstance(x, Item):
+        if x.kind == 'call':
+            return True
+        last = item_pieces(x, f, M)[-1]
+        return last[0] == 't' and last[1].endswith('\n')
+    subs = [x[1]] if x[0] == 'loop' else x[1]
+    return all(ends_line(s, f, M) for s in subs)
+
+
+def text_lines(sq, f, M):
+    """the lines of the text tree sq: [[piece, ..]]; a loop / alternative
+    which starts and ends at a line boundary contributes its own lines, one
+    inside a line is the piece ('n', kind, [seq, ..]) of that line"""
+    lines, cur = [], []
+
+    def blank(ps):
+        return all(p[0] == 't' and not p[1].strip() for p in ps)
+
+    for x in sq:
+        if isinstance(x, Item):
+            for p in item_pieces(x, f, M):
+                if p[0] == 'c' and blank(cur):
+                    # (a builder called at a line start returns whole lines)
+                    lines.append(cur + [p + (x,)])
+                    cur = []
+                    continue
+                if p[0] != 't':
+                    cur.append(p + (x,))
+                    continue
+                parts = p[1].split('\n')
+                for i, part in enumerate(parts):
+                    if i:
+                        lines.append(cur)
+                        cur = []
+                    if part and cur and cur[-1][0] == 't':
+                        cur[-1] = ('t', cur[-1][1] + part, cur[-1][2])
+                    elif part:
+                        cur.append(('t', part, x))
+            continue
+        subs = [x[1]] if x[0] == 'loop' else x[1]
+        if blank(cur) and all(ends_line(s, f, M) for s in subs):
+            for s in subs:
+                lines += text_lines(s, f, M)
+        else:
+            cur.append(('n', x[0], subs))
+            if any(s for s in subs) and all(ends_line(s, f, M) for s in subs):
+                lines.append(cur)
+                cur = []
+    if cur:
+        lines.append(cur)
+    return [l for l in lines if l]
+
+
+def sep_ok(sep):
+    """commands chained by `&&` hand a failure on to the `||` which follows"""
+    return sep is not None and sep.strip() == '&&'
+
+
+GUARD_HISTORY = (
+    "pre_exec=[{'0': ['test -f input.dat', 'export STAGE=1']}] (or the list "
+    "of plain commands ['test -f input.dat', 'export STAGE=1']) with "
+    'input.dat missing: the script reads `test -f input.dat; export STAGE=1 '
+    '|| rp_error pre_exec`, bash applies the guard to the last command only, '
+    'the executable runs although a pre_exec command failed; with '
+    "post_exec=[{'0': ['false', 'true']}] the script exits with 0")
+
+
+def sig_env(prog, f):
+    """{parameter of f which names the section: {KEY}}: the parameter which
+    the script builders bind to 'pre_exec' / 'post_launch' / .."""
+    ps = [p for p in f.params if p not in ('self', 'cls')]
+    out = {}
+    for K in (prog.cls(*EXE), prog.cls(*POPEN)):
+        for m in K.methods.values():
+            for c in calls_in(m.node):
+                if not (isinstance(c.func, ast.Attribute) and
+                        c.func.attr == f.name):
+                    continue
+                if prog.resolve_call(m, c) is not f:
+                    continue
+                for i, a in enumerate(c.args):
+                    if isinstance(a, ast.Constant) and a.value in PREP_KEYS \
+                            and i < len(ps):
+                        out[ps[i]] = frozenset({KEY})
+                for k in c.keywords:
+                    if isinstance(k.value, ast.Constant) and \
+                            k.value.value in PREP_KEYS and k.arg in ps:
+                        out[k.arg] = frozenset({KEY})
+    if len(out) != 1:
+        raise AnalysisError('UNRECOGNISED-IDIOM %s: cannot tell which '
+                            'parameter names the pre/post section (%s)'
+                            % (f.where, sorted(out)))
+    return out
+
+
+def guard_lines(prog, rep, rid, f, env, memo, stack=()):
+    """decide every line of the text of f which holds described commands;
+    returns the number of such lines (those of the helpers which build whole
+    lines for f are counted per call: extracting a helper does not change the
+    number)"""
+    if len(stack) > 6:
+        raise AnalysisError('R10.6: helper chain below %s does not end'
+                            % f.where)
+    rep.saw(f)
+    T = TextEval(prog, f)
+    if not T.returns and not T.sinks:
+        raise AnalysisError('UNRECOGNISED-IDIOM %s: returns no text' % f.where)
+    M = Mult(prog, f, env, memo=memo)
+    n = 0
+    for c in calls_in(f.node):
+        # (TextEval reads `sep.join([a, b])` as a + b)
+        if isinstance(c.func, ast.Attribute) and c.func.attr == 'join' and \
+                len(c.args) == 1 and isinstance(c.args[0], (ast.List,
+                                                            ast.Tuple)) \
+                and M.const_text(c.func.value) != '' and \
+                any(derived(M.ev(x)) for x in c.args[0].elts):
+            raise AnalysisError('UNRECOGNISED-IDIOM %s: `%s` puts described '
+                                'commands into a joined list literal'
+                                % (f.where, short(c, 60)))
+
+    def carries(p):
+        if p[0] in ('v', 'c'):
+            return bool(derived(M.ev(p[1])))
+        if p[0] == 'n':
+            return any(carries(q) for s in p[2] for l in text_lines(s, f, M)
+                       for q in l)
+        return False
+
+    def unrec(line, why):
+        raise AnalysisError('UNRECOGNISED-IDIOM %s: script line `%s` holds '
+                            'described commands %s' % (f.where, show(line),
+                                                       why))
+
+    def show(line):
+        return ''.join(p[1] if p[0] == 't' else '<loop>' if p[0] == 'n'
+                       else '{%s}' % short(p[1], 40) for p in line)[:120]
+
+    for line in text_lines(T.script(), f, M):
+        solid = [p for p in line if p[0] != 't' or p[1].strip()]
+        if len(solid) == 1 and solid[0][0] == 'c':
+            # a helper which returns whole lines: its text is decided there
+            c = solid[0][1]
+            callee = prog.resolve_call(f, c)
+            if callee is not None and callee.cls is not None and \
+                    callee is not f:
+                sub = M.param_env(callee, c, frozenset())
+                if sub and callee.where not in stack:
+                    n += guard_lines(prog, rep, rid, callee, sub, memo,
+                                     stack + (f.where,))
+                continue
+        cmds = [i for i, p in enumerate(line) if carries(p)]
+        if not cmds:
+            continue
+        n += 1
+        node = line[cmds[0]][-1].node if line[cmds[0]][0] != 'n' else f.node
+        g = None
+        for i, p in enumerate(line):
+            m = GUARD_RE.search(p[1]) if p[0] == 't' else None
+            if m:
+                g = (i, m.start())
+                break
+        if g is None:
+            if any(p[0] == 't' and 'rp_error' in p[1] for p in line):
+                unrec(line, 'and rp_error, but not in the form `<command> || '
+                      'rp_error`')
+            if len(solid) != 1 or solid[0][0] != 'v' or not (
+                    solid[0][2].kind == 'fmt' or
+                    isinstance(solid[0][1], (ast.Name, ast.Subscript))):
+                # (text the checker does not see may hold the guard)
+                unrec(line, 'without a visible failure guard')
+            rep.bad(rid, f, 'unguarded:%s' % short(solid[0][1], 60),
+                    '%s puts the described command `%s` on a script line of '
+                    'its own without `|| rp_error <section>`: its failure '
+                    'goes unnoticed' % (f.qual, short(solid[0][1], 60)),
+                    f.loc(node),
+                    history="pre_exec=['test -f input.dat'] with input.dat "
+                    'missing: the executable runs, the script exits with the '
+                    'exit code of the executable')
+            continue
+        if any(i > g[0] for i in cmds):
+            unrec(line, 'after the failure guard')
+        G = [p for p in line[:g[0]]] + [('t', line[g[0]][1][:g[1]])]
+        first, last = cmds[0], cmds[-1]
+        wrapped = any(p[0] != 't' or p[1].strip()
+                      for p in G[:first] + G[last + 1:])
+        bad, seps = [], []
+        for a, b in zip(cmds, cmds[1:]):
+            if any(p[0] != 't' for p in G[a + 1:b]):
+                unrec(line, 'mixed with other values')
+            seps.append(''.join(p[1] for p in G[a + 1:b]))
+        for i in cmds:
+            p = G[i]
+            if p[0] == 'n':
+                if p[1] != 'loop':
+                    unrec(line, 'in alternatives inside one line')
+                inner = [q for s in p[2] for l in text_lines(s, f, M) for q in l]
+                seps.append(''.join(q[1] for q in inner if q[0] == 't'))
+                tags = set()
+                for q in inner:
+                    if q[0] != 't' and q[0] != 'n':
+                        tags |= derived(M.ev(q[1]))
+                    elif q[0] == 'n':
+                        unrec(line, 'in nested loops inside one line')
+                what = 'a loop which adds command after command'
+            else:
+                tags = derived(M.ev(p[1]))
+                what = '`%s`' % short(p[1], 60)
+            if UNK in tags or any(isinstance(x, tuple) and x[0] == 'view'
+                                  for x in tags):
+                unrec(line, 'in a way the checker cannot follow (%s)' % what)
+            for x in tags:
+                if is_fused(x) and x[1] is None:
+                    bad.append('%s is the command list rendered as one string'
+                               % what)
+                elif is_fused(x) and not sep_ok(x[1]):
+                    bad.append('%s holds several commands of the list joined '
+                               'by %r' % (what, x[1]))
+            if COLL in tags:
+                bad.append('%s is the command list (or the per-rank value, '
+                           'which may be a list) as a whole, not one element '
+                           'of it' % what)
+        for s in seps:
+            if not sep_ok(s):
+                bad.append('several commands stand in front of the one guard, '
+                           'separated by %r' % s)
+        if wrapped and not bad:
+            unrec(line, 'wrapped into other text in front of the guard')
+        rep.check(not bad, rid, f,
+                  'guard line `%s`: the command slot holds one element of the '
+                  'described list' % show(line),
+                  construct=line[cmds[0]][-1].node if line[cmds[0]][0] != 'n'
+                  else 'guard:loop',
+                  message='in %s the script line `%s` puts more than one '
+                  'described command in front of one `|| rp_error`: %s.  '
+                  'bash applies the guard to the last command only, a '
+                  'failing earlier command neither stops the script nor '
+                  'changes its exit code' % (f.qual, show(line),
+                                             '; '.join(sorted(set(bad)))),
+                  loc=f.loc(node), history=GUARD_HISTORY)
+    return n
+
+
+def r10_6(prog, rep, rid='R10.6'):
+    rep.rule(rid, 'every command of the described pre/post lists stands alone '
+             'in front of its `|| rp_error <section>`: the command slot of '
+             'each guard line is fed by one element of the list (global and '
+             'per-rank branch of _get_prep_exec, _get_prep_launch), never by '
+             'the list or by several elements joined other than with `&&`',
+             minimum=3)
+    memo = {}
+    for name in PREP_ROOTS:
+        f = prog.method(EXE[0], EXE[1], name)
+        rep.stat('R10.6 command lines',
+                 guard_lines(prog, rep, rid, f, sig_env(prog, f), memo))
+
+
+# ------------------------------------------------------------------------------
 #
 def run(prog, rep, tier):
     rep.decided = ('each `export RP_X=` line of _get_rp_env / _get_rank_ids is '
@@ -1902,7 +2700,10 @@ def run(prog, rep, tier):
         'keyed by the rank id; the named environment is sourced before the '
         "td['environment'] exports; per-rank entries the executor adds "
         '(CUDA_VISIBLE_DEVICES) use the key type and form of the lookup in '
-        '_get_prep_exec.')
+        '_get_prep_exec; each script line which holds a described pre/post '
+        'command (global and per-rank branch of _get_prep_exec, '
+        '_get_prep_launch, helpers which build such lines) has the form '
+        '`<one element of the list> || rp_error <section>`.')
     rep.undecided = ('what bash does with the generated text: `$`, back-ticks '
         'and globs inside sh_quote\'d words (library code), the unquoted '
         'executable and pre/post commands (they are shell text by contract), '
@@ -1923,6 +2724,7 @@ def run(prog, rep, tier):
     r10_3(prog, rep)
     r10_4(prog, rep)
     r10_5(prog, rep)
+    rep.attempt(r10_6, prog, rep)
     if tier == 'thorough':
         # sweep: every launcher class of the package (not only the factory
         # table) and every executor class: argument quoting in get_exec
@@ -2164,5 +2966,69 @@ def _corpus():
             out.append(dict(name='corpus refactoring %s' % name, edits=ed))
     return out
 
+
+
+_PR  = "                for cmd in ru.as_list(entry.get(str(rank_id))):\n                    ret += '        ' + cmd_template % (cmd, sig)\n"
+_GL  = "            return ''.join([cmd_template % (x, sig) for x in entries]) + \\\n                   sync_ranks_cmd\n"
+_PL  = "        for cmd in ru.as_list(task['description'][sig]):\n            ret += '%s || rp_error %s\\n' % (cmd, sig)\n"
+_DEF = "    def _get_prep_exec(self, task, n_ranks, sig):\n"
+
+MUTATIONS += [
+    dict(name='R10.6 per-rank commands of one entry joined with `; ` in front of one guard (seed C10-d)', rules=('R10.6',), edits=[
+        (_E, _PR, "                # keep the commands of one entry on one line per rank\n                cmds = ru.as_list(entry.get(str(rank_id)))\n                if cmds:\n                    ret += '        ' + cmd_template % ('; '.join(cmds), sig)\n")]),
+    dict(name='R10.6 global commands joined into one guarded line', rules=('R10.6',), edits=[
+        (_E, _GL, "            return cmd_template % ('; '.join(entries), sig) + sync_ranks_cmd\n")]),
+    dict(name='R10.6 per-rank commands joined by newline, guard on the last', rules=('R10.6',), edits=[
+        (_E, _PR, "                cmds = ru.as_list(entry.get(str(rank_id)))\n                if cmds:\n                    ret += '        ' + cmd_template % ('\\n        '.join(cmds), sig)\n")]),
+    dict(name='R10.6 per-rank commands accumulated into one string before the guard', rules=('R10.6',), edits=[
+        (_E, _PR, "                line = ''\n                for cmd in ru.as_list(entry.get(str(rank_id))):\n                    line += cmd + '; '\n                if line:\n                    ret += '        ' + cmd_template % (line + 'true', sig)\n")]),
+    dict(name='R10.6 pre/post_launch commands joined into one guarded line', rules=('R10.6',), edits=[
+        (_E, _PL, "        cmds = ru.as_list(td[sig])\n        if cmds:\n            ret += '%s || rp_error %s\\n' % (' ; '.join(cmds), sig)\n")]),
+    dict(name='R10.6 per-rank value formatted as a whole (no as_list, no iteration)', rules=('R10.6',), edits=[
+        (_E, _PR, "                cmds = entry.get(str(rank_id))\n                if cmds:\n                    ret += '        ' + cmd_template % (cmds, sig)\n")]),
+    dict(name='R10.6 commands appended to one script line, one guard at its end', rules=('R10.6',), edits=[
+        (_E, _PR, "                ret += '        '\n                for cmd in ru.as_list(entry.get(str(rank_id))):\n                    ret += cmd + '; '\n                ret += 'true || rp_error %s\\n' % sig\n")]),
+    dict(name='R10.6 two commands in a two-slot guard line', rules=('R10.6',), edits=[
+        (_E, _PR, "                cmds = ru.as_list(entry.get(str(rank_id)))\n                if len(cmds) == 2:\n                    ret += '        %s; %s || rp_error %s\\n' % (cmds[0], cmds[1], sig)\n                    continue\n                for cmd in cmds:\n                    ret += '        ' + cmd_template % (cmd, sig)\n")]),
+    dict(name='R10.6 joined commands handed to an extracted guard helper', rules=('R10.6',), edits=[
+        (_E, _PR, "                ret += self._guard('; '.join(ru.as_list(entry.get(str(rank_id)))), sig)\n"),
+        (_E, _DEF, "    def _guard(self, cmd, sig):\n        return '        %s || rp_error %s\\n' % (cmd, sig)\n\n" + _DEF)]),
+    dict(name='R10.6 per-rank commands emitted without the guard', rules=('R10.6',), edits=[
+        (_E, _PR, "                for cmd in ru.as_list(entry.get(str(rank_id))):\n                    ret += '        %s\\n' % cmd\n")]),
+]
+
+SILENT += [
+    dict(name='guard site: renamed locals, hoisted lookup, line through a local', edits=[
+        (_E, _PR, "                rank_cmds = entry.get(str(rank_id))\n                for c in ru.as_list(rank_cmds):\n                    line = cmd_template % (c, sig)\n                    ret += '        ' + line\n")]),
+    dict(name='guard site: per-rank lines as a comprehension', edits=[
+        (_E, _PR, "                ret += ''.join(['        ' + cmd_template % (cmd, sig)\n                                for cmd in ru.as_list(entry.get(str(rank_id)))])\n")]),
+    dict(name='guard site: extracted one-line helper used by both branches', edits=[
+        (_E, _PR, "                for cmd in ru.as_list(entry.get(str(rank_id))):\n                    ret += '        ' + self._guard(cmd, sig)\n"),
+        (_E, _GL, "            return ''.join([self._guard(x, sig) for x in entries]) + \\\n                   sync_ranks_cmd\n"),
+        (_E, _DEF, "    def _guard(self, cmd, sig):\n        return '%s || rp_error %s\\n' % (cmd, sig)\n\n" + _DEF)]),
+    dict(name='guard site: extracted helper builds the lines of one per-rank value', edits=[
+        (_E, _PR, "                ret += self._rank_lines(entry.get(str(rank_id)), sig)\n"),
+        (_E, _DEF, "    def _rank_lines(self, cmds, sig):\n        out = ''\n        for cmd in ru.as_list(cmds):\n            out += '        %s || rp_error %s\\n' % (cmd.strip(), sig)\n        return out\n\n" + _DEF)]),
+    dict(name='guard site: global branch as a loop', edits=[
+        (_E, _GL, "            for x in entries:\n                ret += cmd_template % (x, sig)\n            return ret + sync_ranks_cmd\n")]),
+    dict(name='guard site: commands of one entry chained with && in front of the guard', edits=[
+        (_E, _PR, "                cmds = ru.as_list(entry.get(str(rank_id)))\n                if cmds:\n                    ret += '        ' + cmd_template % (' && '.join(cmds), sig)\n")]),
+    dict(name='guard site: guard line as f-string', edits=[
+        (_E, _PR, "                for cmd in ru.as_list(entry.get(str(rank_id))):\n                    ret += f'        {cmd} || rp_error {sig}\\n'\n")]),
+    dict(name='guard site: guard line with str.format', edits=[
+        (_E, _PR, "                for cmd in ru.as_list(entry.get(str(rank_id))):\n                    ret += '        {} || rp_error {}\\n'.format(cmd, sig)\n")]),
+    dict(name='guard site: lines collected in a list and joined', edits=[
+        (_E, _PR, "                lines = []\n                for cmd in ru.as_list(entry.get(str(rank_id))):\n                    lines.append('        ' + cmd_template % (cmd, sig))\n                ret += ''.join(lines)\n")]),
+    dict(name='guard site: early continue on an empty per-rank value', edits=[
+        (_E, _PR, "                cmds = entry.get(str(rank_id))\n                if not cmds:\n                    continue\n                for cmd in ru.as_list(cmds):\n                    ret += '        ' + cmd_template % (cmd, sig)\n")]),
+    dict(name='guard site: enumerate over the per-rank commands', edits=[
+        (_E, _PR, "                cmds = ru.as_list(entry.get(str(rank_id)))\n                for i, cmd in enumerate(cmds):\n                    ret += '        ' + cmd_template % (cmd, sig)\n")]),
+    dict(name='guard site: while / pop over a copy of the per-rank commands', edits=[
+        (_E, _PR, "                cmds = list(ru.as_list(entry.get(str(rank_id))))\n                while cmds:\n                    cmd = cmds.pop(0)\n                    ret += '        ' + cmd_template % (cmd, sig)\n")]),
+    dict(name='guard site: launch commands as a comprehension over td[sig]', edits=[
+        (_E, _PL, "        ret += ''.join(['%s || rp_error %s\\n' % (c, sig)\n                        for c in ru.as_list(td[sig])])\n")]),
+    dict(name='guard site: command list read with td.get(sig)', edits=[
+        (_E, "        entries         = ru.as_list(td[sig])\n", "        entries         = ru.as_list(td.get(sig))\n")]),
+]
 
 SILENT += _corpus()
